@@ -918,13 +918,14 @@ int main(int argc, char** argv)
       if (!rulesets[rr]) { fprintf(out, "{\"e\":\"RelocAudit\",\"rid\":%d,\"skipped\":\"no rules\"}\n", rr); continue; }
       YR_ARENA* a = rulesets[rr]->arena;
       unsigned char* reg[YR_MAX_ARENA_BUFFERS] = {0};
-      long nreloc = 0, dangling = 0, unregistered = 0, null_slots = 0, candidates = 0, outside = 0;
+      long nreloc = 0, dangling = 0, unregistered = 0, null_slots = 0, candidates = 0, outside = 0, misaligned = 0;
       char firsts[512] = ""; char firstd[512] = "";
       for (uint32_t b = 0; b < a->num_buffers; b++) reg[b] = (unsigned char*) calloc(a->buffers[b].used + 8, 1);
       for (YR_RELOC* rl = a->reloc_list_head; rl != NULL; rl = rl->next)
       {
         nreloc++;
         if (rl->buffer_id >= a->num_buffers || (size_t) rl->offset + 8 > a->buffers[rl->buffer_id].used) { outside++; continue; }
+        if (rl->offset % 8 != 0) misaligned++;
         reg[rl->buffer_id][rl->offset] = 1;
         uint64_t v; memcpy(&v, a->buffers[rl->buffer_id].data + rl->offset, 8);
         if (v == 0) { null_slots++; continue; }
@@ -938,6 +939,14 @@ int main(int argc, char** argv)
         if (a->buffers[b].used < 8) continue;
         for (size_t off = 0; off + 8 <= a->buffers[b].used; off++)
         {
+          /* a word that overlaps a registered slot is made of parts of that pointer (and of its neighbour): it only looks like an
+             address by coincidence (pointers embedded in byte code sit at any offset, so every offset is examined) */
+          if (!reg[b][off])
+          {
+            int overlaps = 0;
+            for (size_t k = (off >= 7 ? off - 7 : 0); k <= off + 7 && k < a->buffers[b].used; k++) if (reg[b][k]) overlaps = 1;
+            if (overlaps) continue;
+          }
           uint64_t v; memcpy(&v, a->buffers[b].data + off, 8);
           if (v < 4096) continue;
           for (uint32_t k = 0; k < a->num_buffers; k++)
@@ -961,8 +970,8 @@ int main(int argc, char** argv)
         for (long i = 0; i < ac_t; i++)
           if (tt[i] != 0 && ((long) YR_AC_NEXT_STATE(tt[i]) >= ac_t || (long) YR_AC_NEXT_STATE(tt[i]) >= ac_m)) ac_bad++;
       }
-      fprintf(out, "{\"e\":\"RelocAudit\",\"ac_t\":%ld,\"ac_m\":%ld,\"ac_bad\":%ld,\"rid\":%d,\"relocs\":%ld,\"null\":%ld,\"pointers\":%ld,\"unregistered\":%ld,\"dangling\":%ld,\"outside\":%ld,\"first_unregistered\":[%s],\"first_dangling\":[%s]}\n",
-              ac_t, ac_m, ac_bad, rr, nreloc, null_slots, candidates, unregistered, dangling, outside, firsts, firstd);
+      fprintf(out, "{\"e\":\"RelocAudit\",\"ac_t\":%ld,\"ac_m\":%ld,\"ac_bad\":%ld,\"rid\":%d,\"relocs\":%ld,\"null\":%ld,\"pointers\":%ld,\"unregistered\":%ld,\"dangling\":%ld,\"outside\":%ld,\"misaligned_slots\":%ld,\"first_unregistered\":[%s],\"first_dangling\":[%s]}\n",
+              ac_t, ac_m, ac_bad, rr, nreloc, null_slots, candidates, unregistered, dangling, outside, misaligned, firsts, firstd);
     }
     else if (!strcmp(op, "rinfo")) { NEED(1); if (rulesets[slot(tok[1], MAXSLOT)]) log_rules_info(slot(tok[1], MAXSLOT)); }
     else if (!strcmp(op, "cdestroy"))
